@@ -1101,6 +1101,18 @@ def ldict_method(I, v, name, args, kwargs, node):
 
 def del_item(I, base, key, node):
     c = I.ctx
+    if isinstance(base, SList) and isinstance(key, (SInt, SBool)):
+        n = len(base.items)
+        t = as_int(key)
+        ci = concrete_int(simp(t))
+        if ci is None:
+            ci = c.concretize(z3.If(t >= 0, t, t + n), what="list index")
+        elif ci < 0:
+            ci += n
+        if not (0 <= ci < n):
+            I.raise_exc(IndexError, "list assignment index out of range", node)
+        del base.items[ci]
+        return
     if isinstance(base, SDict):
         for j, (kk, vv) in enumerate(base.entries):
             if c.branch(I.eq(kk, key)):
